@@ -3,6 +3,7 @@ import EpModel.Driver.EncLink
 import EpModel.Driver.EncNet
 import EpModel.Model.Io
 import EpModel.Model.IoBuild
+import EpModel.Model.IoSkip
 /- `io.*` operations (C16): fault injection on writers, readers, output slices and the
    LimitedReader (same line formats as harness/src/io.rs).
 
@@ -12,6 +13,8 @@ import EpModel.Model.IoBuild
    io.limited <hex> <k> <max> <src> <off> <layer> <op>…
                                    → [<op>=<result>@(max_len,read_len,layer_offset,layer,src),…];pulled=<n>
    io.build.write / io.build.wslice <path> <args…> <payload> <k|cap>
+   io.skip.ext / io.skip.all <next_header> <hex> <k>
+                                   → ok(<next header>)|err(io)|err(eof);pos=<final position>;post=0
    (`post`: calls made after the first failure — the model makes none by construction;
     `canary`: bytes behind the slice — the model has no way to touch them) -/
 namespace EpModel.Driver.Io
@@ -292,6 +295,18 @@ def buildOp (slice : Bool) (args : List String) : Option String := do
         pure s!"{rs};buf={hx buf};canary=intact"
       else pure (writeLine (Build.ser pk) id n)
 
+/-! ### Read + Seek skipping of IPv6 extension headers -/
+
+def skipOp (f : Reader → Nat → Reader × Except IoError Nat) : List String → Option String
+  | [nh, d, k] => do
+    let nh ← EncLink.argU8 nh; let d ← argHex d; let k ← argNat k
+    let (r, res) := f { data := d, pos := 0, failAt := some k } nh
+    let rs := match res with
+      | .ok n => s!"ok({n})"
+      | .error e => e.render
+    pure s!"{rs};pos={r.pos};post=0"
+  | _ => none
+
 /-! ### dispatch -/
 
 open Codec CodecNet in
@@ -313,6 +328,13 @@ def run (op : String) (args : List String) : Option String :=
   | "io.write.tcp" => simpleWrite mkTcp Parts.tcp args
   | "io.write.icmpv4" => simpleWrite mkIcmp4 Parts.icmpv4 args
   | "io.write.icmpv6" => simpleWrite mkIcmp6 Parts.icmpv6 args
+  -- `LinkHeader::write` / `TransportHeader::write`: a `match` that calls the `write` of the variant
+  | "io.write.link.eth2" => simpleWrite mkEth2 Parts.eth2 args
+  | "io.write.link.sll" => simpleWrite mkSll Parts.sll args
+  | "io.write.tp.udp" => simpleWrite mkUdp Parts.udp args
+  | "io.write.tp.tcp" => simpleWrite mkTcp Parts.tcp args
+  | "io.write.tp.icmpv4" => simpleWrite mkIcmp4 Parts.icmpv4 args
+  | "io.write.tp.icmpv6" => simpleWrite mkIcmp6 Parts.icmpv6 args
   | "io.write.ipv4exts" => do
     let (f, k) ← splitLast args
     let k ← argNat k
@@ -395,6 +417,8 @@ def run (op : String) (args : List String) : Option String :=
   | "io.limited" => limited args
   | "io.build.write" => buildOp false args
   | "io.build.wslice" => buildOp true args
+  | "io.skip.ext" => skipOp Skip.skipHeaderExtension args
+  | "io.skip.all" => skipOp Skip.skipAll args
   | _ => none
 
 end EpModel.Driver.Io
